@@ -199,4 +199,19 @@ CONFIG = {
         "quick": {"checks": 40, "shards": 16},
         "thorough": {"checks": 1500, "shards": 16, "timeout": 10800},
     },
+    "C09": {
+        "race": True,
+        "rule": "one rapid property per indicator registry entry, per base strategy and one over decorator/compound expressions: a call history of 2-5 Compute calls (strategies: Compute and "
+                "Report calls, all report columns drained) on ONE instance, each call with its own series (lengths 0 .. 2w+25, some <= warm-up), executed one after another (1/3) or "
+                "concurrently from separate goroutines (2/3). Built with -race (GORACE=halt_on_error). Oracle: every call's outputs are bitwise equal to those of a fresh instance on "
+                "the same input; any race report or fatal runtime error kills the process and is promoted to a violation with the in-flight case as replay. "
+                "Non-trivial: calls with >= 2 different lengths. Distinct = (subject, configuration, concurrency, lengths, first series).",
+        "technique": "property-based testing (rapid) of call histories on shared instances under the Go race detector, differential against fresh instances",
+        "level_text": "Generated histories of sequential and concurrent Compute/Report calls on a single instance are compared bit for bit with fresh instances, under the race detector. The race detector only sees executions that happen: the claim is 'no race and no state carried on the receiver observed in N generated histories', not absence.",
+        "level_note": "Happens-before race detection on the executed schedules only; goroutine interleavings are sampled by the runtime scheduler (GOMAXPROCS 16).",
+        "assumptions": ["a data race that needs a rare interleaving may go unobserved"],
+        "gomaxprocs": [16, 4],
+        "quick": {"checks": 12, "shards": 16},
+        "thorough": {"checks": 400, "shards": 16, "timeout": 10800},
+    },
 }
